@@ -4,6 +4,7 @@ mod sym;
 mod exec;
 mod masm;
 mod parse;
+mod serde;
 mod trace;
 
 use std::io::BufRead;
@@ -28,6 +29,7 @@ fn run_family(family: &str, path: &str) {
             "airfull" => air::run_airfull(&line),
             "tracehash" => trace::run_tracehash(&line),
             "asmdump" => masm::run_asmdump(&line),
+            "serde" => serde::run_serde(&line),
             _ => panic!("unknown family {family}"),
         };
         // result lines carry a marker: the default host prints debug decorators to stdout
